@@ -215,7 +215,7 @@ Qed.
 Example C03_meta_ok2_satisfiable :
   exists c, meta_ok2 c /\ MetaModel.c_use_grids c = true /\ MetaModel.c_keep c = true /\ MetaModel.c_wt c = true.
 Proof.
-  exists (@MetaModel.mkCfg R [] [] 1%R 2%R 2 1 true true true 300%R 1%R false).
+  exists (@MetaModel.mkCfg R [] [] 1%R 2%R 2 1 true true true 300%R 1%R false false 0 (fun _ => 0%R)).
   unfold meta_ok2, meta_ok. cbn. repeat split; auto; try lia. exists 2. reflexivity.
 Qed.
 
